@@ -311,10 +311,17 @@ func (s *session[H]) verify(headers []H) ([]H, error) {
 
 // verifyChunkBoundaries checks that the first header of every received chunk verifies against
 // the last header of the chunk preceding it in the range.
-func (s *session[H]) verifyChunkBoundaries(chunks [][]H) error {
+func (s *session[H]) verifyChunkBoundaries(chunks [][]H) (err error) {
 	if s.from.IsZero() {
 		return nil
 	}
+	// header verification is implemented by the user of the library and runs on data
+	// received from peers: like in processResponses, it must not be able to crash the client
+	defer func() {
+		if r := recover(); r != nil {
+			err = fmt.Errorf("PANIC verifying received range: %s", r)
+		}
+	}()
 
 	sort.Slice(chunks, func(i, j int) bool {
 		return chunks[i][0].Height() < chunks[j][0].Height()
